@@ -552,6 +552,10 @@ struct Emitter
         else if (auto* x = dyn_cast<CXXCatchStmt>(s))
         {
             o["k"] = "catch";
+            if (x->getExceptionDecl() == nullptr)
+                o["all"] = true; // catch (...)
+            else
+                o["ct"] = x->getCaughtType().getCanonicalType().getAsString(PP);
             kids({x->getHandlerBlock()});
         }
         else if (auto* x = dyn_cast<CXXThrowExpr>(s))
